@@ -953,8 +953,8 @@ func genLCond(r *rng, ty string) metav1.Condition {
 func runCondCase(r *rng) line {
 	p := &v3.IPPool{ObjectMeta: metav1.ObjectMeta{Name: "c"}}
 	tags := []string{"stream:conditions"}
-	n := r.intn(5)
-	dup := r.chance(25) // the API server keeps one condition per type; the helpers are also run on lists that break the rule
+	n := r.intn(6)
+	dup := r.chance(40) // the API server keeps one condition per type; the helpers are also run on lists that break the rule
 	var before []metav1.Condition
 	used := map[string]bool{}
 	for i := 0; i < n; i++ {
@@ -975,12 +975,12 @@ func runCondCase(r *rng) line {
 		}
 	}
 	nc := genLCond(r, pick(r, []string{v3.IPPoolConditionAllocatable, v3.IPPoolConditionAllocatable, "SomethingElse"}))
-	if len(before) > 0 && r.chance(40) { // aim at "already as wanted" / "differs in one field"
+	if len(before) > 0 && r.chance(65) { // aim at "already as wanted" / "differs in one field"
 		for _, b := range before {
 			if b.Type == nc.Type {
 				nc = b
 				nc.LastTransitionTime = metav1.Time{}
-				switch r.intn(4) {
+				switch r.intn(7) {
 				case 0:
 					nc.Message = pick(r, condMsgs)
 				case 1:
@@ -1050,6 +1050,13 @@ func main() {
 		_ = enc.Encode(runCase(r, tf, stream, i/10*2+i%10))
 		if i%8 == 7 {
 			_ = enc.Encode(runCondCase(r))
+		}
+		if i%16 == 3 {
+			failed, rq := r.chance(70), r.intn(8)
+			adds, forgets := ippool.VerifHandleErr(failed, rq)
+			coq := fmt.Sprintf("(XErr %v %d%%nat %d%%nat %d%%nat)", failed, rq, adds, forgets)
+			_ = enc.Encode(line{Coq: coq, NT: failed, Key: coq, Tags: []string{"stream:handle-err", fmt.Sprintf("handle-err:failed=%v,budget-left=%v", failed, rq < 5)},
+				Sample: map[string]any{"stream": "handle-err", "failed": failed, "requeues": rq, "rate_limited_adds": adds, "forgets": forgets}})
 		}
 	}
 	_ = enc.Encode(map[string]any{"stats": map[string]any{"terminating_tested_before_disabled": tf}})
